@@ -589,3 +589,42 @@ def exc_handlers(repo, tier="quick"):
     if n_calls < 8:
         raise AnalysisError("handler scan matched only %d call sites on paths to the fault sites (floor 8)" % n_calls)
     return obs
+
+
+def exc_raise_inventory(repo, tier="quick"):
+    """C04 (the documented grammar is accepted): the rejection sites of the graph reader are the ones confirmed by reading.
+    A raise statement beyond the confirmed ones restricts the accepted language; whether it rejects documented strings is a
+    question about runtime values the rule cannot answer, so it is reported as undecided (never as a violation)."""
+    import json
+    import os
+    from ..report import VERIF, ob_undecided
+    with open(os.path.join(VERIF, "spec", "faults.json")) as fh:
+        table = json.load(fh)["reader_raise_sites"]
+    obs = []
+    oid = "EXC.raise-inventory"
+    for mname in ("read_cgsmiles", "dialects"):
+        for fi in repo.module(mname).functions.values():
+            want = table.get(fi.fq, {})
+            got = {}
+            for n in fi.cfg.nodes:
+                if n.kind == "stmt" and isinstance(n.ast, ast.Raise):
+                    e = n.ast.exc
+                    if e is None:
+                        continue       # bare re-raise
+                    cls = e.func if isinstance(e, ast.Call) else e
+                    name = ast.unparse(cls)
+                    got.setdefault(name, []).append(n)
+            extra = []
+            for name, nodes in got.items():
+                if len(nodes) > want.get(name, 0):
+                    extra.append((name, nodes))
+            if extra:
+                for name, nodes in extra:
+                    obs.append(ob_undecided(oid, fi, nodes[-1].ast, construct="%d `raise %s` in %s, %d confirmed" % (len(nodes), name, fi.name, want.get(name, 0)),
+                                            instance=fi.name + ":" + name,
+                                            reason="the reader rejects input at a site that was not confirmed against the documented grammar; "
+                                                   "review it and extend spec/faults.json (reader_raise_sites)"))
+            else:
+                obs.append(ob_ok(oid, fi, construct="raise statements of %s: %s" % (fi.name, {k: len(v) for k, v in got.items()} or "none"),
+                                 instance=fi.name, reason="no rejection site beyond the confirmed ones"))
+    return obs
